@@ -1,5 +1,7 @@
 import TongoProofs.Lemmas.BocTotal
 import TongoProofs.Lemmas.BocHash
+import TongoGen.BocHeader
+import TongoProofs.Lemmas.GenTiesA
 /-! Property C07 — parsing untrusted bag-of-cells bytes never crashes and yields sound cells.
 
 The theorems are about `Tongo.Boc.parseBoc`, the line-by-line model of the REPAIRED `boc.DeserializeBoc`
@@ -68,5 +70,27 @@ example : (match parseBoc [0xb5, 0xee, 0x9c, 0x72, 0x01, 0x01, 0x02, 0x01, 0x00,
     0x02, 0x00, 0x01, 0x01, 0x00, 0x00] with
     | .ok (t, roots) => t.size == 2 && roots == [0]
     | _ => false) = true := by decide +kernel
+
+/-- tie (X4, regenerated from boc/boc.go): one iteration of the loop of `readNBytesUIntFromArray`
+(`res *= 256; res += uint(arr[i])` on `uint`), as REGENERATED on every run, is the step of the model `readN`. -/
+theorem gen_readNBytesStep (res : Nat) (b : UInt8) (h : res < 2^64) :
+    (Gen.BocHeader.readNBytesStep (BitVec.ofNat 64 res) b.toBitVec).toNat = (res * 256 + b.toNat) % two64 :=
+  GenTies.gen_readNBytesStep res b h
+
+/-- tie (X4, regenerated from boc/boc.go): the model `readN n bs res` of `readNBytesUIntFromArray`, when the `n` bytes
+are there, returns the fold of the REGENERATED loop body over `bs[0:n]`. -/
+theorem gen_readN (n : Nat) (bs : Bytes) (res : Nat) (h : res < 2^64) (hl : n ≤ bs.length) :
+    readN n bs res =
+      .ok ((bs.take n).foldl (fun r b => Gen.BocHeader.readNBytesStep r b.toBitVec) (BitVec.ofNat 64 res)).toNat :=
+  GenTies.gen_readN n bs res h hl
+
+/-- tie (X4, regenerated from boc/boc.go): the decoding of the flag byte after the generic magic in `parseBocHeader`
+(`hasIdx`, `hashCrc32`, `hasCacheBits`, `flags`, `sizeBytes`), as REGENERATED on every run, is the model's
+`headerKind magicGeneric`, for all 256 bytes. -/
+theorem gen_flagByte (fb : UInt8) : headerKind magicGeneric fb =
+    some ⟨(Gen.BocHeader.flagByte fb.toBitVec).1, (Gen.BocHeader.flagByte fb.toBitVec).2.1,
+      (Gen.BocHeader.flagByte fb.toBitVec).2.2.1, (Gen.BocHeader.flagByte fb.toBitVec).2.2.2.1.toNat,
+      (Gen.BocHeader.flagByte fb.toBitVec).2.2.2.2.toNat, true⟩ :=
+  GenTies.gen_flagByte fb
 
 end Tongo.C07
